@@ -24,7 +24,9 @@ RULE = ("the whole configuration lattice is enumerated: {TripleStream,QuadStream
         "points also with the frames gathered in a list before being written; plus two flat_stream_to_file calls that share one "
         "options object and overlap (the inner call made from inside the outer call's input generator); plus the store/sink entry "
         "points with namespace declarations on (1 or 6 bindings) x frame size {1,3,5,12,250}; explicit flows also handed over as "
-        "copy.copy(flow) and inside a deep-copied options object} x inputs of "
+        "copy.copy(flow) and inside a deep-copied options object; every entry point x framing x frame size {1,250} with lookup "
+        "tables smaller than / equal to / larger than what one statement of the input needs (3 prefixes or 2 datatypes at once, "
+        "from the first statement on)} x inputs of "
         "1, 3, 5 statements with fresh terms and 4, 6 statements re-using terms (single-row statements). Oracle for every configuration that returns without raising: every stream the entry point "
         "created or was given has an empty flow, and the bytes decode (pyjelly parser and reference decoder) to the input "
         "(documented quads->TRIPLES projection applied). Raising is always acceptable. Non-trivial = distinct accepted "
@@ -68,7 +70,19 @@ def plan(tier: str) -> dict:
     return {"shards": 8, "budget_s": 80} if tier == "quick" else {"shards": 16, "budget_s": 600}
 
 
-def inputs(arity: int, n: int) -> list:
+def inputs(arity: int, n: int, wide: str | None = None) -> list:
+    if wide:
+        # every statement needs three distinct prefixes ("prefixes") or two distinct datatypes ("datatypes") at once
+        out = []
+        for i in range(n):
+            if wide == "prefixes":
+                st = [("iri", f"http://a{i}.example/s"), ("iri", f"http://b{i}.example/p"), ("iri", f"http://c{i}.example/o")]
+            else:
+                st = [("lit", "1", None, f"http://ex.org/dt/a{i}"), ("iri", "http://ex.org/p"), ("lit", "2", None, f"http://ex.org/dt/b{i}")]
+            if arity == 4:
+                st.append(("iri", "http://a0.example/g") if i % 2 else ("default",))
+            out.append(tuple(st))
+        return out
     if n < 0:
         # "reuse" variant: after the first two statements every statement is a single row (no new entries),
         # so partial last frames of exactly one row occur
@@ -132,6 +146,18 @@ def enumerate_configs(tier: str):
         for phys in ([1, 2, 3] if explicit else [0]):
             yield {"entry": ename, "integration": integ, "physical": phys, "arity": 4, "logical": logical, "delimited": delimited,
                    "frame_size": fs, "flow": "inferred", "flow_logical": None, "n": n, "collect": False, "empty_graphs": True}
+    # lookup tables smaller than, equal to and larger than what ONE statement of the input needs (three prefixes / two
+    # datatypes at once), from the first statement on: accepted configurations must still give the input back
+    for (ename, integ, explicit), delimited, fs, n in itertools.product(ENTRIES, (True, False), (1, 250), (1, 3)):
+        for wide, presets in (("prefixes", [(8, 1, 8), (8, 2, 8), (8, 3, 8), (8, 4, 8), (16, 0, 8)]),
+                              ("datatypes", [(8, 8, 1), (8, 8, 2), (8, 8, 3)])):
+            if wide == "datatypes" and integ != "generic":
+                continue
+            for preset in presets:
+                for phys, arity in ([(1, 3), (2, 4)] if explicit else [(0, 3), (0, 4)]):
+                    yield {"entry": ename, "integration": integ, "physical": phys, "arity": arity,
+                           "logical": 1 if arity == 3 else 2, "delimited": delimited, "frame_size": fs, "flow": "inferred",
+                           "flow_logical": None, "n": n, "collect": False, "wide": wide, "preset": list(preset)}
     for n in ns:
         for arity in (3, 4):
             # a sink filled by sink.parse(<file>) rather than by add(), written out again with guessed options
@@ -165,7 +191,7 @@ def _maybe_list(frames, c: dict):
 def run_config(c: dict) -> dict:
     """Execute one configuration. Returns {'outcome': 'raised'|'returned', ...}."""
     monitors.registry_clear()
-    stmts = inputs(c["arity"], c["n"])
+    stmts = inputs(c["arity"], c["n"], c.get("wide"))
     out = io.BytesIO()
     res: dict = {"stmts": stmts}
     binds = [(f"p{i}", f"http://ex.org/nsdecl/{i}/") for i in range(c.get("ns") or 0)]
@@ -191,7 +217,8 @@ def run_config(c: dict) -> dict:
                 flow=flow, frame_size=c["frame_size"], logical_type=c["logical"],
                 params=StreamParameters(delimited=c["delimited"], generalized_statements=True, rdf_star=True,
                                         namespace_declarations=bool(binds)),
-                lookup_preset=LookupPreset.small())
+                lookup_preset=LookupPreset(max_names=c["preset"][0], max_prefixes=c["preset"][1], max_datatypes=c["preset"][2])
+                if c.get("preset") else LookupPreset.small())
             if c.get("flow_via") == "copy":
                 import copy
                 options.flow = copy.copy(flow)
